@@ -142,12 +142,40 @@ class Field:
         return "<%s %s>" % (self.kind, {k: v for k, v in self.__dict__.items() if k not in ("ev", "kind")})
 
 
+def discover_ladders(prog):
+    """Functions of indxio / iindexes (other than fit_dtype and the two documented helpers) that are
+    ladders over one integer parameter: fq -> pieces.  They are kept as calls and decided by sa/ladder.py."""
+    from . import ladder as LD
+    out = {}
+    for modname in ("indxio", "iindexes"):
+        m = prog.modules.get(modname)
+        if m is None:
+            continue
+        cands = list(m.functions.values()) + [f for c in m.classes.values() if c.name == "IndxIO" for f in c.methods.values()]
+        for fi in cands:
+            if fi.qualname in NOINLINE or fi.qualname in ("IndxIO.save", "IndxIO.load") or getattr(fi, "node", None) is None:
+                continue
+            if len([a for a in fi.params() if a not in ("self", "cls")]) != 1:
+                continue
+            try:
+                pieces = LD.Evaluator(prog, modname).pieces(fi)
+            except LD.Unknown:
+                continue
+            except Exception:
+                continue
+            vals = {v for _, _, v in pieces}
+            if len(pieces) >= 2 and all(isinstance(v, (int, LD.DType)) or v in (None, "raise") for v in vals) and any(isinstance(v, (int, LD.DType)) for v in vals):
+                out[fi.fq] = pieces
+    return out
+
+
 # =========================================================================== writer
 class Writer:
     def __init__(self, prog):
         self.prog = prog
         self.fi = prog.func("indxio", "IndxIO.save")
-        self.I = Interp(prog, no_inline=NOINLINE)
+        self.ladders = discover_ladders(prog)
+        self.I = Interp(prog, no_inline=set(NOINLINE) | set(self.ladders))
         self.frame = self.I.run(self.fi)
         names = self.fi.params()
         self.f = tm.param(names[0])
@@ -242,6 +270,11 @@ class Writer:
                             arr = arr.args[0].args[0]
                         if self.array_dtype(arr) == y.args[0]:
                             return ("sum*itemsize", self._arrkey(arr), y.args[0])
+        # a word size w with D = IndxIO.dtype(w): w = D.itemsize (helper table, R-C10-c)
+        for dname in ("d_index", "d_row"):
+            dd = getattr(self, dname, None)
+            if dd is not None and helper_arg(dd, F_DTYPE) is not None and helper_arg(dd, F_DTYPE) == t:
+                return ("itemsize", dd)
         if t.op == "attr" and t.args[1] == "nbytes":
             return ("nbytes", self._arrkey(t.args[0]))
         if t.op == "attr" and t.args[1] == "itemsize":
@@ -290,12 +323,27 @@ class Reader:
                 r = ev["result"]
                 g = lambda k, i: tm.kwarg(r, k) if tm.kwarg(r, k) is not None else (args[i] if len(args) > i else None)
                 self.ops.append(Field("ndarray", ev, shape=g("shape", 0), dtype=g("dtype", 1), buf=g("buffer", 2), offset=g("offset", 3) or const(0), result=r))
-            elif nm in ("numpy.frombuffer", "numpy.fromfile", "numpy.memmap"):
+            elif nm == "numpy.frombuffer" and args:
+                # frombuffer(buffer, dtype, count=-1, offset=0): an array over (the rest of) a buffer object
+                r = ev["result"]
+                g = lambda k, i: tm.kwarg(r, k) if tm.kwarg(r, k) is not None else (args[i] if len(args) > i else None)
+                cnt = g("count", 2)
+                if cnt is not None and tm.is_const(cnt, -1):
+                    cnt = None
+                self.ops.append(Field("ndarray", ev, shape=cnt, dtype=g("dtype", 1), buf=args[0], offset=g("offset", 3) or const(0), result=r, to_end=cnt is None))
+            elif nm in ("numpy.fromfile", "numpy.memmap"):
                 self.ops.append(Field("other-read", ev, result=ev["result"]))
             elif nm == "mmap.mmap":
                 self.ops.append(Field("mmap", ev, length=args[1] if len(args) > 1 else tm.kwarg(ev["result"], "length"), result=ev["result"]))
             elif nm in ("os.fstat", "os.stat", "os.path.getsize"):
                 self.ops.append(Field("stat", ev, result=ev["result"]))
+
+
+def _same_buffer(b, mapped):
+    """b is the mapped buffer itself or a memoryview of all of it."""
+    while b is not None and b.op == "call" and (tm.callee_name(b) or "").split(".")[-1] == "memoryview" and b.args[1]:
+        b = b.args[1][0]
+    return b == mapped
 
 
 def analyse(prog):
@@ -362,7 +410,8 @@ def _writer_rules(W, C, info):
          "lengths dtype %s vs rowids dtype %s" % (d_len and tm.show(d_len), d_row and tm.show(d_row)),
          undecided=(d_len is None or d_row is None))
     # -- index word size / rowid word size
-    C.ok(d_index is not None and f[5].value == T("attr", d_index, "itemsize"), "R-C11-a", where, "index word size field = itemsize of the coordinates dtype",
+    via_helper = d_index is not None and helper_arg(d_index, F_DTYPE) is not None and helper_arg(d_index, F_DTYPE) == f[5].value  # IndxIO.dtype(w).itemsize = w (R-C10-c)
+    C.ok(d_index is not None and (f[5].value == T("attr", d_index, "itemsize") or via_helper), "R-C11-a", where, "index word size field = itemsize of the coordinates dtype",
          tm.show(f[5].value), "index word size field is %s but coordinates are written with dtype %s" % (tm.show(f[5].value), d_index and tm.show(d_index)))
     C.ok(d_row is not None and f[8].value == T("attr", d_row, "itemsize"), "R-C11-a", where, "rowid word size field = itemsize of the row-id dtype",
          tm.show(f[8].value), "rowid word size field is %s but row ids are written with dtype %s" % (tm.show(f[8].value), d_row and tm.show(d_row)))
@@ -475,7 +524,9 @@ def _writer_rules(W, C, info):
          "length self-check present on the normal exit", "no final length check against 16 + recorded size")
 
     # -- R-C11-c numeric kind of the size arithmetic
-    ctx = K.KindCtx(W.I, param_kinds={})
+    from . import ladder as LD
+    int_ladders = {fq: K.PYINT for fq, pcs in W.ladders.items() if all(isinstance(v, int) or v in (None, "raise") for _, _, v in pcs)}
+    ctx = K.KindCtx(W.I, param_kinds={}, func_kinds=int_ladders)
     bad = []
     for part in _summands(size_t):
         k = K.kind(part, ctx)
@@ -493,9 +544,46 @@ def _writer_rules(W, C, info):
 
     # -- R-C10-e / R-C11-d: index word = fit_dtype(max(all coordinates, common))
     ok_fit = d_index is not None and d_index.op == "call" and d_index.args[0] == F_FIT and len(d_index.args[1]) >= 1
-    C.ok(ok_fit, "R-C11-d", where, "index word dtype is chosen by fit_dtype (narrowest, C19)", "", "index dtype is %s" % (d_index and tm.show(d_index)[:160]))
+    arg = None
     if ok_fit:
+        C.ok(True, "R-C11-d", where, "index word dtype is chosen by fit_dtype (narrowest, C19)", "", "")
         arg = d_index.args[1][0]
+    else:
+        # another chooser: a ladder helper giving the dtype, or a word size that is turned into a dtype by IndxIO.dtype
+        chooser = d_index
+        if chooser is not None and helper_arg(chooser, F_DTYPE) is not None:
+            chooser = helper_arg(chooser, F_DTYPE)
+        fq = chooser.args[0].args[0] if (chooser is not None and chooser.op == "call" and chooser.args[0].op == "func") else None
+        from . import ladder as LD
+        const_dtype = None
+        if d_index is not None:
+            dn = tm.dotted(d_index.args[1][0]) if (is_call(d_index, "numpy.dtype") and d_index.args[1]) else tm.dotted(d_index)
+            if dn and dn.split(".")[-1] in LD.RANGES:
+                const_dtype = dn.split(".")[-1]
+        if const_dtype is not None:
+            fq = "a constant dtype (%s)" % const_dtype
+            W.ladders = dict(W.ladders)
+            W.ladders[fq] = [(-LD.INF, LD.INF, LD.DType(const_dtype))]
+            chooser = T("call", T("func", fq), (const(0),), ())
+        if fq in W.ladders and len(chooser.args[1]) == 1:
+            arg = chooser.args[1][0] if const_dtype is None else None
+            bad = LD.check_word_ladder(W.ladders[fq])
+            cons = "index word size is chosen by %s: narrowest unsigned word for every maximum in [0, 2**64-1]" % fq
+            if not bad:
+                C.ok(True, "R-C11-d", where, cons, "%d intervals, each inside one word-size class" % len(W.ladders[fq]), "")
+            for kind, x, got, want in bad:
+                if kind == "too-narrow":
+                    C.add("R-C10-e", VIOLATED, where, "index word wide enough (chooser %s)" % fq, "maximum %d gets a %s-byte word but needs %s bytes: coordinates wrap on save" % (x, got, want),
+                          witness={"inputs": "an index whose largest coordinate (or common value) is %d" % x})
+                elif kind == "too-wide":
+                    C.add("R-C11-d", VIOLATED, where, cons, "maximum %d gets a %s-byte word; the documented narrowest is %s byte(s)" % (x, got, want),
+                          witness={"inputs": "an index whose largest coordinate (or common value) is %d: the file is wider than the documented layout" % x})
+                else:
+                    C.add("R-C11-d", VIOLATED if kind == "signed" else UNDECIDED, where, cons, "maximum %d yields %r" % (x, got))
+        else:
+            C.add("R-C11-d", UNDECIDED, where, "index word dtype is the narrowest unsigned type for max(coordinates, common)",
+                  "chosen by %s, which is neither fit_dtype nor a recognised one-parameter ladder" % (d_index and tm.show(d_index)[:120]))
+    if arg is not None:
         dep_common = tm.contains(arg, lambda x: x == W.p_common)
         dep_coords = tm.contains(arg, lambda x: x in base_arrays)
         C.ok(dep_common and dep_coords, "R-C10-e", where, "fit_dtype argument depends on both the coordinates and the common value",
@@ -618,7 +706,7 @@ def _reader_rules(R, C, info):
          witness={"example": "f.read(n) returns fewer than n bytes at EOF without raising"})
     data = [o for o in ops if o.kind in ("unpack_from", "ndarray")]
     for o in data:
-        C.ok(o.buf == buf, "R-C12-b", "%s@%d" % (where, o.ev.line), "field read uses the mapped buffer: %s" % o.kind, "", "buffer is %s" % tm.show(o.buf)[:80])
+        C.ok(_same_buffer(o.buf, buf), "R-C12-b", "%s@%d" % (where, o.ev.line), "field read uses the mapped buffer: %s" % o.kind, "", "buffer is %s" % tm.show(o.buf)[:80])
     # ---- R-C12-c exception transparency
     trys = [t for t in R.I.tryinfo.values() if t["kind"] == "try"]
     swallowing = [t for t in trys if any(not h["reraises"] for h in t["handlers"])]
@@ -697,7 +785,7 @@ def _reader_rules(R, C, info):
         C.ok(a_rows.dtype == a_len.dtype, "R-C11-a", where, "row ids dtype = dtype(rowid word size)", "", "dtype is %s" % (a_rows.dtype and tm.show(a_rows.dtype)[:120]))
         # shape = (mapped length - offset) / itemsize : covers the remainder
         sh = a_rows.shape
-        okrem = sh is not None and tm.contains(sh, lambda x: x == mm.length) and tm.contains(sh, lambda x: x == a_rows.offset)
+        okrem = (sh is not None and tm.contains(sh, lambda x: x == mm.length) and tm.contains(sh, lambda x: x == a_rows.offset)) or (sh is None and getattr(a_rows, "to_end", False) and _same_buffer(a_rows.buf, buf))
         C.ok(okrem, "R-C10-b", where, "row-id block spans from the cursor to the end of the mapped payload", "", "shape is %s" % (sh and tm.show(sh)[:200]), undecided=True)
 
     # ---- per-entry slicing loop
